@@ -847,6 +847,258 @@ neg("C10", "neg-teardown-delete-nested", "teardown's delete condition nested",
 neg("C10", "neg-restore-locals", "restore loop with locals",
     [(SVC, "		for i, t := range topics {\n			svc.topicsMgr.Subscribe([]byte(t), qoss[i], &svc.onpub)\n		}\n", "		for i := range topics {\n			filter, q := []byte(topics[i]), qoss[i]\n			svc.topicsMgr.Subscribe(filter, q, &svc.onpub)\n		}\n")])
 
+# ---------------------------------------------------------------- C11
+CONN = "message/connect.go"
+AUTH = """	if err = svr.authMgr.Authenticate(user, string(req.Password())); err != nil {
+		log.Warningf("(%s) Authentication of user %s failed: %v", req.ClientID(), user, err)
+		resp.SetReturnCode(message.ErrBadUsernameOrPassword)
+		resp.SetSessionPresent(false)
+		writeMessage(conn, resp)
+		return nil, err
+	}
+"""
+pos("C11", "auth-failure-falls-through", "a refused login continues into session creation",
+    [(SRV, AUTH, AUTH.replace("		writeMessage(conn, resp)\n		return nil, err\n", "		writeMessage(conn, resp)\n"))],
+    ["C11/P11-effect-dominance/accept:no-effect-after-failed-authentication"])
+pos("C11", "auth-failure-wrong-code", "a refused login is answered with 'not authorized' (5) instead of 4",
+    [(SRV, AUTH, AUTH.replace("message.ErrBadUsernameOrPassword", "message.ErrNotAuthorized"))],
+    ["C11/P2-case-contract/accept:authentication-failure:sets-code(4)"])
+pos("C11", "session-before-authentication", "a session is created before the credentials are checked",
+    [(SRV, "	// Authenticate the user, if error, return error and exit\n	user := string(req.Username())", "	svr.sessMgr.New(string(req.ClientID()))\n\n	// Authenticate the user, if error, return error and exit\n	user := string(req.Username())")],
+    ["C11/P11-effect-dominance/accept:authentication-before-any-effect"])
+pos("C11", "connect-accepts-reserved-flag", "CONNECT with the reserved flag bit set is accepted",
+    [(CONN, "	if m.connectFlags&0x1 != 0 {\n		return total, fmt.Errorf(\"connect/decodeMessage: Connect Flags reserved bit 0 is not 0\")\n	}\n\n", "")],
+    ["C11/P8-guard-contract/CONNECT-decode:rejects(reserved-flag-set)"])
+pos("C11", "connect-accepts-empty-id-without-clean", "an empty client id without clean session is accepted",
+    [(CONN, "	if len(m.clientID) == 0 && !m.CleanSession() {", "	if len(m.clientID) == 0 && m.CleanSession() {")],
+    ["C11/P8-guard-contract/CONNECT-decode:rejects(empty-client-id-without-clean-session)"])
+pos("C11", "accepted-without-connack", "a successful handshake starts the service without writing the CONNACK",
+    [(SRV, "	if err = writeMessage(c, resp); err != nil {\n		return nil, err\n	}\n\n	svc.inStat.increment", "	svc.inStat.increment")],
+    ["C11/P2-case-contract/accept:accepted:writes-CONNACK"])
+neg("C11", "neg-auth-early-block", "authentication block with the refusal in a helper",
+    [(SRV, AUTH, """	if err = svr.authMgr.Authenticate(user, string(req.Password())); err != nil {
+		log.Warningf("(%s) Authentication of user %s failed: %v", req.ClientID(), user, err)
+		svr.refuse(conn, resp, message.ErrBadUsernameOrPassword)
+		return nil, err
+	}
+"""),
+     (SRV, "func (svr *Server) checkConfiguration() error {", """func (svr *Server) refuse(conn io.Closer, resp *message.ConnackMessage, code message.ConnackCode) {
+	resp.SetReturnCode(code)
+	resp.SetSessionPresent(false)
+	writeMessage(conn, resp)
+}
+
+func (svr *Server) checkConfiguration() error {""")])
+neg("C11", "neg-connack-write-local-error", "CONNACK write with a separate error variable",
+    [(SRV, "	if err = writeMessage(c, resp); err != nil {\n		return nil, err\n	}\n\n	svc.inStat.increment", "	werr := writeMessage(c, resp)\n	if werr != nil {\n		err = werr\n		return nil, err\n	}\n\n	svc.inStat.increment")])
+neg("C11", "neg-connect-reserved-mask", "reserved flag test written with == 1",
+    [(CONN, "	if m.connectFlags&0x1 != 0 {", "	if m.connectFlags&0x1 == 1 {")])
+
+# ---------------------------------------------------------------- C12
+pos("C12", "puback-not-released", "PUBACK is recorded but the waiting publish is never completed",
+    [(PROC, "		p.sess.Pub1ack.Ack(msg)\n		p.processAcked(p.sess.Pub1ack)", "		p.sess.Pub1ack.Ack(msg)")],
+    ["C12/P2-case-contract/PUBACK:must(release(Pub1ack))"])
+pos("C12", "pubcomp-on-wrong-queue", "PUBCOMP is acknowledged on the inbound queue",
+    [(PROC, "		if err = p.sess.Pub2out.Ack(msg); err != nil {\n			break\n		}\n\n		p.processAcked(p.sess.Pub2out)", "		if err = p.sess.Pub2in.Ack(msg); err != nil {\n			break\n		}\n\n		p.processAcked(p.sess.Pub2out)")],
+    ["C12/P2-case-contract/PUBCOMP:must(Pub2out.Ack)"])
+pos("C12", "completion-called-twice", "the completion callback fires twice",
+    [(PROC, "				if err := onComplete(msg, ack, nil); err != nil {\n					log.Warningf(\"OnCompleteFunc failed: %v\", err)\n				}", "				if err := onComplete(msg, ack, nil); err != nil {\n					log.Warningf(\"OnCompleteFunc failed: %v\", err)\n					onComplete(msg, ack, err)\n				}")],
+    ["C12/P2-case-contract/release-loop:"])
+pos("C12", "qos0-registered", "a QoS 0 publish is put into the PUBACK queue and never completes",
+    [(SVC, "	case message.QosAtMostOnce:\n		if onComplete != nil {\n			return onComplete(msg, nil, nil)\n		}\n\n		return nil\n\n	case message.QosAtLeastOnce:", "	case message.QosAtMostOnce, message.QosAtLeastOnce:")],
+    ["C12/P2-case-contract/(*service.service).publish:QoS0-completes-at-once"])
+pos("C12", "ack-marks-head-instead-of-id", "an acknowledgement updates the head slot whatever id it carries",
+    [(AQ, "			aq.ring[i].State = msg.Type()\n", "			aq.ring[aq.head].State = msg.Type()\n")],
+    ["C12/P3-ack-id/Ack:store(ring[i].State):i-from-index(id)"])
+neg("C12", "neg-puback-err-checked", "PUBACK case checks the Ack error like the QoS 2 cases",
+    [(PROC, "		p.sess.Pub1ack.Ack(msg)\n		p.processAcked(p.sess.Pub1ack)", "		if err = p.sess.Pub1ack.Ack(msg); err != nil {\n			break\n		}\n		p.processAcked(p.sess.Pub1ack)")])
+neg("C12", "neg-release-callback-flat", "completion callback with early continues",
+    [(PROC, """		if ackmsg.OnComplete != nil {
+			onComplete, ok := ackmsg.OnComplete.(OnCompleteFunc)
+			if !ok {
+				log.Errorf("Invalid OnCompleteFunc: %v", reflect.TypeOf(ackmsg.OnComplete))
+			} else if onComplete != nil {
+				if err := onComplete(msg, ack, nil); err != nil {
+					log.Warningf("OnCompleteFunc failed: %v", err)
+				}
+			}
+		}
+""", """		if ackmsg.OnComplete == nil {
+			continue
+		}
+		onComplete, ok := ackmsg.OnComplete.(OnCompleteFunc)
+		if !ok {
+			log.Errorf("Invalid OnCompleteFunc: %v", reflect.TypeOf(ackmsg.OnComplete))
+			continue
+		}
+		if onComplete == nil {
+			continue
+		}
+		if err := onComplete(msg, ack, nil); err != nil {
+			log.Warningf("OnCompleteFunc failed: %v", err)
+		}
+""")])
+neg("C12", "neg-ack-slot-pointer", "Ack works on a pointer to the slot",
+    [(AQ, """			aq.ring[i].State = msg.Type()
+
+			ml := msg.Len()
+			aq.ring[i].Ackbuf = make([]byte, ml)
+
+			_, err := msg.Encode(aq.ring[i].Ackbuf)
+			if err != nil {
+				return err
+			}
+""", """			slot := &aq.ring[i]
+			slot.State = msg.Type()
+			slot.Ackbuf = make([]byte, msg.Len())
+
+			if _, err := msg.Encode(slot.Ackbuf); err != nil {
+				return err
+			}
+""")])
+
+# ---------------------------------------------------------------- C13
+pos("C13", "acked-skips-unfinished-head", "Acked releases finished entries behind an unfinished head (out of order)",
+    [(AQ, "		default:\n			break FORNOTEMPTY\n		}", "		default:\n			aq.removeHead()\n			continue FORNOTEMPTY\n		}")],
+    ["C13/P4-loop-contract/Acked:stops-at-first-unfinished-head"])
+pos("C13", "empty-by-head-equals-tail", "a full queue is taken for an empty one",
+    [(AQ, "func (aq *Ackqueue) empty() bool {\n	return aq.count == 0", "func (aq *Ackqueue) empty() bool {\n	return aq.head == aq.tail")],
+    ["C13/T5-co-update/Acked:emptiness-decided-on-count"])
+pos("C13", "removehead-keeps-index-entry", "released ids stay in the index map and block re-use of the id",
+    [(AQ, "	aq.count--\n	delete(aq.emap, it.Pktid)\n", "	aq.count--\n	_ = it\n")],
+    ["C13/T5-co-update/(*sessions.Ackqueue).removeHead:"])
+pos("C13", "grow-newest-first", "grow unrolls a wrapped ring with the newest entries first",
+    [(AQ, "		copy(newring, aq.ring[aq.head:])\n		copy(newring[aq.size-aq.head:], aq.ring[:aq.tail])", "		copy(newring, aq.ring[:aq.tail])\n		copy(newring[aq.tail:], aq.ring[aq.head:])")],
+    ["C13/T5-co-update/grow:unrolls-oldest-first"])
+pos("C13", "wait-without-lock", "Wait mutates the queue outside its mutex",
+    [(AQ, "func (aq *Ackqueue) Wait(msg message.Message, onComplete interface{}) error {\n	aq.mu.Lock()\n	defer aq.mu.Unlock()\n", "func (aq *Ackqueue) Wait(msg message.Message, onComplete interface{}) error {\n")],
+    ["C13/G1-guarded-by/Ackqueue.Wait:holds-mu"])
+neg("C13", "neg-acked-head-local", "Acked works on a copy of the head entry",
+    [(AQ, """		switch aq.ring[aq.head].State {
+		case message.PUBACK, message.PUBREL, message.PUBCOMP, message.SUBACK, message.UNSUBACK:
+			aq.ackdone = append(aq.ackdone, aq.ring[aq.head])
+			aq.removeHead()
+""", """		head := aq.ring[aq.head]
+		switch head.State {
+		case message.PUBACK, message.PUBREL, message.PUBCOMP, message.SUBACK, message.UNSUBACK:
+			aq.ackdone = append(aq.ackdone, head)
+			aq.removeHead()
+""")])
+neg("C13", "neg-empty-len", "emptiness through len()",
+    [(AQ, "func (aq *Ackqueue) empty() bool {\n	return aq.count == 0", "func (aq *Ackqueue) empty() bool {\n	return aq.len() == 0")])
+neg("C13", "neg-grow-explicit-loop", "grow unrolls with an element loop from the head",
+    [(AQ, """	if aq.tail > aq.head {
+		copy(newring, aq.ring[aq.head:aq.tail])
+	} else {
+		copy(newring, aq.ring[aq.head:])
+		copy(newring[aq.size-aq.head:], aq.ring[:aq.tail])
+	}
+""", """	for i := int64(0); i < aq.count; i++ {
+		newring[i] = aq.ring[(aq.head+i)&aq.mask]
+	}
+""")])
+
+# ---------------------------------------------------------------- C14
+pos("C14", "writer-commits-reserved-length", "the writer commits the reserved length instead of what Encode produced",
+    [(SR, "		m, err = svc.out.WriteCommit(n)", "		m, err = svc.out.WriteCommit(l)")],
+    ["C14/L7-critical-span/writeMessage:commits-what-was-encoded-in-place"])
+pos("C14", "writer-encodes-before-lock", "two writers interleave their bytes in the outgoing ring",
+    [(SR, "	svc.wmu.Lock()\n	defer svc.wmu.Unlock()\n\n	buf, wrap, err = svc.out.WriteWait(l)", "	buf, wrap, err = svc.out.WriteWait(l)\n	svc.wmu.Lock()\n	defer svc.wmu.Unlock()\n")],
+    ["C14/L7-critical-span/writeMessage:buffer.WriteWait-under-wmu"])
+pos("C14", "processor-commits-before-use", "the ring space of a packet is released while the handler still reads it",
+    [(PROC, """		err = p.processIncoming(msg)
+		if err != nil {
+			if err != errDisconnect {
+				log.Warningf("(%s) Error processing %s: %v", p.cid(), msg.Name(), err)
+			} else {
+				return
+			}
+		}
+
+		// 7. We should commit the bytes in the buffer so we can move on
+		_, err = p.in.ReadCommit(total)
+		if err != nil {
+			if !isEOF(err) {
+				log.Errorf("(%s) Error committing %d read bytes: %v", p.cid(), total, err)
+			}
+			return
+		}
+""", """		_, err = p.in.ReadCommit(total)
+		if err != nil {
+			if !isEOF(err) {
+				log.Errorf("(%s) Error committing %d read bytes: %v", p.cid(), total, err)
+			}
+			return
+		}
+
+		err = p.processIncoming(msg)
+		if err != nil {
+			if err != errDisconnect {
+				log.Warningf("(%s) Error processing %s: %v", p.cid(), msg.Name(), err)
+			} else {
+				return
+			}
+		}
+""")],
+    ["C14/P5-order/processor:commit-after-use-of-peeked-bytes"])
+pos("C14", "processor-writes-into-in-ring", "a second producer on the incoming ring",
+    [(PROC, "		p.inStat.increment(int64(n))\n", "		p.inStat.increment(int64(n))\n		p.in.WriteCommit(0)\n")],
+    ["C14/P9-who-may/"])
+neg("C14", "neg-writer-explicit-unlock", "writer with explicit unlocks instead of defer",
+    [(SR, """	svc.wmu.Lock()
+	defer svc.wmu.Unlock()
+
+	buf, wrap, err = svc.out.WriteWait(l)
+	if err != nil {
+		return 0, err
+	}
+""", """	svc.wmu.Lock()
+	defer func() {
+		svc.wmu.Unlock()
+	}()
+
+	buf, wrap, err = svc.out.WriteWait(l)
+	if err != nil {
+		return 0, err
+	}
+""")])
+neg("C14", "neg-writer-wrap-helper", "wrap path extracted into a method",
+    [(SR, """		if len(svc.outtmp) < l {
+			svc.outtmp = make([]byte, l)
+		}
+
+		n, err = msg.Encode(svc.outtmp[0:])
+		if err != nil {
+			return 0, err
+		}
+
+		m, err = svc.out.Write(svc.outtmp[0:n])
+		if err != nil {
+			return m, err
+		}
+""", """		m, err = svc.writeWrapped(msg, l)
+		if err != nil {
+			return m, err
+		}
+"""),
+     (SR, "func isEOF(err error) bool {", """// writeWrapped encodes into the scratch buffer and copies into the ring (svc.wmu held).
+func (svc *service) writeWrapped(msg message.Message, l int) (int, error) {
+	if len(svc.outtmp) < l {
+		svc.outtmp = make([]byte, l)
+	}
+
+	n, err := msg.Encode(svc.outtmp[0:])
+	if err != nil {
+		return 0, err
+	}
+
+	return svc.out.Write(svc.outtmp[0:n])
+}
+
+func isEOF(err error) bool {""")])
+neg("C14", "neg-processor-commit-local", "processor commits through a local ring variable",
+    [(PROC, "		_, err = p.in.ReadCommit(total)\n		if err != nil {\n			if !isEOF(err) {", "		in := p.in\n		_, err = in.ReadCommit(total)\n		if err != nil {\n			if !isEOF(err) {")])
+
 
 def main():
     os.makedirs(OUT, exist_ok=True)
